@@ -4,9 +4,12 @@ Monitor shape: action trace judged by (a) a model-free pairing automaton and (b)
 lock-step reference model of the active pile (vf/models/boxwork.py).
 
 The boxwork is built by the real `Boxer.make` from a generated function that uses
-the bx / do / go verbs.  Every box gets two recorder acts in each of the contexts
-predo (precondition, scripted truthiness), rendo, endo, exdo, rexdo - two, so that
-declaration order inside one box/context is observable - and scripted transition
+the bx / do / be / at / go verbs.  Every box gets 2..4 recorder acts in each of the contexts
+predo (precondition, scripted truthiness; always 2), rendo, endo, exdo, rexdo - several, so that
+declaration order inside one box/context is observable.  The acts of one context are declared
+with a per-case MIX of verbs - do(callable), do("statement"), be(bag.field, callable),
+be(bag.field, "expression") - because declaration order is a promise about the box's context,
+not about one verb: each act appends its own token to the shared trace.  Scripted transition
 acts: real `Goact`s whose `Need` is a scripted subclass (fires when the case script
 says so, records that it was evaluated).  The real `Boxer.run` generator is driven
 by the harness cycle by cycle and ended through the documented end path (the end
@@ -48,6 +51,8 @@ TECHNIQUE = ("action-trace monitoring of the real Boxer.run generator: model-fre
 RULE = ("enum1: every ordered forest with <= 5 boxes (quick) / <= 6 boxes (thorough) and <= 4 levels x every (first box, "
         "source box in its pile, destination box) x {no failing precondition, a failing precondition at each arrived box, "
         "a failing precondition at a box that is not arrived at}; enum0: first entry refused at each box of each first pile; "
+        "every case declares the acts of each box/context with a mix of do/be verbs (callable and string forms) drawn from 16 patterns of "
+        "2..4 acts, rotated per box; "
         "rand: random forests of 2..7 boxes (<= 4 levels, random creation order), every box has go acts to (almost) every box "
         "in random declaration order, 1..10 scripted cycles firing 1..3 go acts with/without failing preconditions, ended by "
         "end bag / EndAct in a box / close. Non-trivial = at least one transition attempt was observed (taken or refused) and "
@@ -73,6 +78,12 @@ REQUIRE = {
     "ends_judged": 1500,
     "ends_with_2plus_active": 800,
     "declaration_groups_checked": 20000,
+    # declaration order judged where a do-declared act precedes a be-declared act in the same box/context, per context
+    "decl_do_before_be:enter": 5000,
+    "decl_do_before_be:exit": 2500,
+    "decl_do_before_be:re-exit": 500,
+    "decl_do_before_be:re-enter": 500,
+    "decl_do_before_be:precondition": 2500,
     "first_entries_refused": 50,
 }
 EXHAUSTIVE = {
@@ -93,12 +104,46 @@ MAXDEPTH = 4
 FALSY = [False, None, 0, ""]
 TRUTHY = [True, 1, "y"]
 NABES = (("predo", "P"), ("rendo", RE), ("endo", E), ("exdo", X), ("rexdo", RX))
+# How the recorder acts of one box/context are declared, one letter per act in declaration order:
+#   d  do(callable)            s  do("statement string")     (Act)
+#   b  be("slot.value", callable)   e  be("slot.value", "expression string")   (Beact)
+# The s/e forms reach the recorder through their iops, so every act appends its own token to the shared trace.
+# Box b uses the case's pattern for that context rotated by b, so boxes of one case differ.
+PATTERNS = ["dd", "db", "bd", "dbdb", "sb", "de", "bsd", "ebsd", "dbs", "bb", "sbe", "dbd", "eds", "bdb", "se", "dsbe"]
+PRE_PATTERNS = ["dd", "db", "bd", "de", "ed", "bb", "be", "eb"]   # NACT long; no s: exec() returns None = a failing precondition
+DECL_NAME = dict(KIND_NAME, P="precondition")
+
+
+def case_verbs(i):
+    """Deterministic verb patterns for the i-th enumerated case."""
+    v = {k: PATTERNS[(i * 7 + j * 3) % len(PATTERNS)] for j, k in enumerate((RE, E, X, RX))}
+    v["P"] = PRE_PATTERNS[i % len(PRE_PATTERNS)]
+    return v
+
+
+def verbs_of(case, kind, b):
+    pat = (case.get("verbs") or {}).get(kind, "d" * NACT)
+    r = b % len(pat)
+    return pat[r:] + pat[:r]
+
+
+def do_before_be(pat):
+    """a do-declared act precedes a be-declared act: the mix where declaration order depends on the verbs agreeing"""
+    return any(c in "ds" for c in pat[:max((i for i, c in enumerate(pat) if c in "be"), default=0)])
 
 
 # --------------------------------------------------------------------------
 # case generation
 # --------------------------------------------------------------------------
 def _enum_cases(maxn):
+    i = 0
+    for case in _enum_cases0(maxn):
+        case["verbs"] = case_verbs(i)
+        i += 1
+        yield case
+
+
+def _enum_cases0(maxn):
     for n in range(1, maxn + 1):
         for parents in bw.preorder_forests(n, MAXDEPTH):
             f = bw.Forest(parents)
@@ -221,8 +266,10 @@ def _rand_case(rng):
             active = pl.new
             if how == "act" and end["box"] in pl.arrived:
                 ending = True
+    verbs = {k: rng.choice(PATTERNS) for k in (RE, E, X, RX)}
+    verbs["P"] = rng.choice(PRE_PATTERNS)
     return {"kind": "rand", "parents": parents, "first": first, "firstmode": fm, "goacts": goacts,
-            "steps": steps, "end": end}
+            "steps": steps, "end": end, "verbs": verbs}
 
 
 def cases(tier, seed, shard, nshards):
@@ -299,18 +346,32 @@ def build(case, rt):
     endbox = case["end"].get("box") if case["end"]["how"] == "act" else None
 
     def fun(H, bx, go, do, on, at, be):
+        H.slot = bagging.Bag()      # what the be-declared acts assign
         for b in range(n):
             p = parents[b]
             bx(name=f"b{b}", over=(None if p < 0 else f"b{p}"), first=(fm == "flag" and b == first))
-            # declaration: idx-major so that the two acts of a context are not adjacent declarations
-            for idx in range(NACT):
+            pats = {kind: verbs_of(case, kind, b) for _, kind in NABES}
+            # declaration: idx-major so that the acts of one context are not adjacent declarations
+            for idx in range(max(len(v) for v in pats.values())):
                 for nabe, kind in NABES:
-                    if (b + idx) % 2:
+                    if idx >= len(pats[kind]):
+                        continue
+                    verb = pats[kind][idx]
+                    rec = _recorder(rt, kind, b, idx)
+                    via_at = (b + idx) % 2      # context given by at(...) or by the verb's nabe argument
+                    if via_at:
                         at(nabe)
-                        do(_recorder(rt, kind, b, idx))
-                        at()
+                    na = None if via_at else nabe
+                    if verb == "d":
+                        do(rec, na)
+                    elif verb == "s":
+                        do("iops['rec']()", na, rec=rec)
+                    elif verb == "b":
+                        be("slot.value", rec, na)
                     else:
-                        do(_recorder(rt, kind, b, idx), nabe)
+                        be("slot.value", "iops['rec']()", na, rec=rec)
+                    if via_at:
+                        at()
             if endbox == b:
                 do("end")
             for gi, dest in enumerate(case["goacts"][b]):
@@ -326,7 +387,7 @@ def build(case, rt):
 # --------------------------------------------------------------------------
 # judging
 # --------------------------------------------------------------------------
-def group_visits(events, ctx, keys, sit):
+def group_visits(events, ctx, keys, sit, case=None):
     """Fold recorder events of kinds X/RX/RE/E into visits [(kind, box)], checking that each visit ran
     the box's acts of that context completely and in declaration order."""
     visits = []
@@ -336,7 +397,8 @@ def group_visits(events, ctx, keys, sit):
         if ev[0] not in bw.KINDS:
             continue
         kind, b, idx = ev
-        if cur is not None and cur[0] == kind and cur[1] == b and len(cur[2]) < NACT and idx not in cur[2]:
+        if (cur is not None and cur[0] == kind and cur[1] == b and idx not in cur[2]
+                and len(cur[2]) < len(verbs_of(case or {}, kind, b))):
             cur[2].append(idx)
         else:
             cur = [kind, b, [idx]]
@@ -344,17 +406,22 @@ def group_visits(events, ctx, keys, sit):
     for kind, b, idxs in groups:
         visits.append((kind, b))
         ctx.count("declaration_groups_checked")
-        if idxs != list(range(NACT)):
-            if sorted(idxs) == list(range(NACT)):
+        pat = verbs_of(case or {}, kind, b)
+        want = list(range(len(pat)))
+        if do_before_be(pat):
+            ctx.count("decl_do_before_be:" + KIND_NAME[kind])
+        if idxs != want:
+            if sorted(idxs) == want:
                 keys.append((f"order:declaration:{KIND_NAME[kind]}",
-                             f"acts of box b{b} in context {KIND_NAME[kind]} ran in order {idxs}, declared {list(range(NACT))}"))
+                             f"acts of box b{b} in context {KIND_NAME[kind]} ran in order {idxs}, declared {want} "
+                             f"with verbs {pat} (d do(callable) s do(str) b be(callable) e be(str))"))
             else:
                 keys.append((f"boxes:{sit}:{KIND_NAME[kind]}-partial",
-                             f"box b{b} context {KIND_NAME[kind]}: acts run {idxs} of declared {list(range(NACT))}"))
+                             f"box b{b} context {KIND_NAME[kind]}: acts run {idxs} of declared {want}"))
     return visits
 
 
-def check_preconds(events, ctx, keys):
+def check_preconds(events, ctx, keys, case=None):
     cur = None
     groups = []
     for ev in events:
@@ -369,9 +436,13 @@ def check_preconds(events, ctx, keys):
         else:
             cur = None
     for b, idxs in groups:
+        pat = verbs_of(case or {}, "P", b)
+        if len(idxs) == len(pat) and do_before_be(pat):
+            ctx.count("decl_do_before_be:precondition")
         if idxs != list(range(len(idxs))):
             keys.append(("order:declaration:precondition",
-                         f"preconditions of box b{b} evaluated in order {idxs}, declared {list(range(NACT))}"))
+                         f"preconditions of box b{b} evaluated in order {idxs}, declared {list(range(len(pat)))} "
+                         f"with verbs {pat}"))
 
 
 def pairing(visits, act, keys, sit, ctx):
@@ -602,8 +673,8 @@ def run_case(case, ctx):
             end_pending_next = False
 
         # ---- observed ------------------------------------------------------
-        obs = group_visits(events, ctx, keys, sit)
-        check_preconds(events, ctx, keys)
+        obs = group_visits(events, ctx, keys, sit, case)
+        check_preconds(events, ctx, keys, case)
         pkeys = []
         pairing(obs, act, pkeys, sit, ctx)
         for k, _ in obs:
